@@ -154,7 +154,12 @@ func (r *rateLimiter) UpdateRateLimitConditionStatus(upstream string, condition 
 	mutex.Lock()
 	defer mutex.Unlock()
 
+	// quotas on record for this instance, nothing when it has no record
+	var recordedFlowControlMap map[string]proxyv1alpha1.RateLimitItemConfiguration
 	oldCondition, err := limitStore.Get(condition.Spec.UpstreamCluster, condition.Name)
+	if err == nil {
+		recordedFlowControlMap = util.FlowControlConfigToMap(oldCondition.Spec.LimitItemConfigurations)
+	}
 	if errors.IsNotFound(err) {
 		oldCondition = &proxyv1alpha1.RateLimitCondition{
 			TypeMeta:   upstreamCondition.TypeMeta,
@@ -198,7 +203,7 @@ func (r *rateLimiter) UpdateRateLimitConditionStatus(upstream string, condition 
 			return nil, fmt.Errorf("upstream flow control item type %s not equal to instance item type %s", upstreamItemType, itemType)
 		}
 
-		newConfig := calculateNextQuota(upstreamTotal, upstreamUsed, flowControlConfig, flowControlStatus, len(clients), condition)
+		newConfig := calculateNextQuota(upstreamTotal, upstreamUsed, flowControlConfig, recordedFlowControlMap[flowControlConfig.Name], flowControlStatus, len(clients), condition)
 		//klog.V(4).Infof("[condition] name=%q next quota of condition: %+v", condition.Name, newConfig)
 
 		var allocatedLimit int32
